@@ -1,12 +1,14 @@
 (* C05 driver: one case (= one whole history) per input line, one result line per case.
    case:   <kind> <maxConf|d> <maxTerm|d> <op> <op> ...
-           kind = fsm (mock option handler) | lcp | ipcp | ipv6cp (real handlers)
+           kind = fsm (mock option handler, proto LCP) | ncp (mock handler, proto IPCP)
+                  | lcp | ipcp | ipv6cp (real handlers)
            op   = U | D | O | C | T | I<code>.<id>.<cls>.<dlen>
                   id  = c (current lastReqID) | s (lastReqID+1) | p (lastReqID-1) | decimal
                   cls = g | n | r | b | m     (handler's answer to a Configure-Request / malformed data)
    result: per op   <state>/<restartCount>/<armed>/<lastReqID>/<id>/<failCount>:<actions>
            actions = comma separated  scr.<id>.<tag> sca. scn. srj. str. sta. scj. ser. tlu tld tls tlf | -
-   argv[3] = variant (repaired | defective), default repaired.
+   argv[3] = variant: repaired (both fix patches) | defective (fsm.go as it stands)
+             | cells_unfixed (only the NCP patch applied) | ncp_unfixed (only the cells patch applied).
    Every step of the repaired variant is also re-checked against the RFC table by the extracted
    [conformsb] (guards the extraction); a failure prints MODELBUG. *)
 let z_of_int (i : int) : z = if i = 0 then Z0 else if i > 0 then Zpos (pos_of_int i) else Zneg (pos_of_int (-i))
@@ -34,14 +36,21 @@ let filter_map f l = List.fold_right (fun x acc -> match f x with Some y -> y ::
 
 let () =
   let lines = read_lines Sys.argv.(1) in
-  let v = if Array.length Sys.argv > 3 && Sys.argv.(3) = "defective" then Defective else Repaired in
+  let vname = if Array.length Sys.argv > 3 then Sys.argv.(3) else "repaired" in
+  let v = match vname with
+    | "defective" -> { fix_cells = false; fix_ncp = false }
+    | "cells_unfixed" -> { fix_cells = false; fix_ncp = true }
+    | "ncp_unfixed" -> { fix_cells = true; fix_ncp = false }
+    | _ -> { fix_cells = true; fix_ncp = true } in
   List.iter (fun line ->
     match tokens line with
     | kind :: mc :: mt :: ops ->
       (try
-        let mock = (kind = "fsm") in
+        let mock = (kind = "fsm" || kind = "ncp") in
+        let is_lcp = (kind = "fsm" || kind = "lcp") in
         let c = { maxConf = (if mc = "d" then default_cfg.maxConf else z_of_int (int_of_string mc));
-                  maxTerm = (if mt = "d" then default_cfg.maxTerm else z_of_int (int_of_string mt)) } in
+                  maxTerm = (if mt = "d" then default_cfg.maxTerm else z_of_int (int_of_string mt));
+                  lcp = is_lcp } in
         let f = ref init in
         let outl = List.map (fun op ->
           let e = match op with
@@ -57,8 +66,8 @@ let () =
                | _ -> failwith "bad input op")
             | _ -> failwith ("bad op " ^ op) in
           let f' = step c v !f e in
-          let bug = (v = Repaired) &&
-                    not (conformsb !f e f' && ids_okb !f e (outs f') &&
+          let bug = (vname = "repaired") &&
+                    not (conformsb c !f e f' && ids_okb !f e (outs f') &&
                          int_of_z f'.restart = int_of_z (counter_after c !f e (outs f'))) in
           f := f';
           let (((((s, r), a), l), i), fl) = obs f' in
